@@ -10,7 +10,7 @@ from nbsym import engine as E
 from oracle import models as M
 
 ID = "C01"
-TITLE = "base_step / interval_step (recombination, dosage) / chain swap satisfy detailed balance w.r.t. (L*prior)^T on unordered genotypes; kernels depend on the genotype as a multiset; orchestration passes each chain its own temperature"
+TITLE = "[+ wiring of fit()/_mcmc/_denovo_assembler with symbolic inbreeding] base_step / interval_step (recombination, dosage) / chain swap satisfy detailed balance w.r.t. (L*prior)^T on unordered genotypes; kernels depend on the genotype as a multiset; orchestration passes each chain its own temperature"
 ENCODED = [
     "mchap.assemble.mutation.base_step", "mchap.assemble.structural.interval_step",
     "mchap.assemble.structural.recombination_step_options", "mchap.assemble.structural.recombination_step_n_options",
@@ -32,6 +32,7 @@ BOUNDS = {
     "thorough": "adds ploidy 3 [2,3], [2,2,2]; ploidy 4 [2,2], [2,3], [2,2,2]; ploidy 6 [2,2]",
 }
 OUTSIDE = "larger ploidy / SNV counts; the read model (C04); float rounding; ergodicity"
+WIRING = "orchestration and class-wiring groups: _denovo_assembler -> compound steps / exchange, and DenovoMCMC.fit/_mcmc -> _homozygosity_probabilities / _denovo_assembler, are run with recorders bound through the real callees' signatures: every call must carry the sampler's own symbolic inbreeding, log_unique_haplotypes, reads, counts, non-fixed sites, step probabilities, cache threshold and the temperature ladder sorted ascending"
 TASKS_PER_CHILD = 4
 
 QUICK = [(2, [2, 2]), (2, [2, 3]), (3, [2, 2])]
@@ -59,11 +60,12 @@ def configs(tier):
                     out.append(dict(group=group, P=P, nal=nal, inbred=inbred, lo=lo, hi=min(n, lo + CHUNK)))
     out.append(dict(group="swap"))
     out.append(dict(group="orch"))
+    out.append(dict(group="class-wiring", cls="denovo"))  # DenovoMCMC.fit/_mcmc -> _homozygosity_probabilities / _denovo_assembler
     return out
 
 
 def weight(c):
-    if c["group"] in ("swap", "orch"):
+    if c["group"] in ("swap", "orch", "class-wiring"):
         return 1
     return c["P"] ** 3 * len(c["nal"]) * (3 if c["group"] != "base" else 1) * (2 if c["inbred"] else 1)
 
@@ -184,6 +186,11 @@ def _sumterms(ts):
 
 
 def run_config(c, col):
+    if c.get("group") == "class-wiring":
+        from checks import wiring
+
+        E.use_summaries(True)
+        return wiring.run_class(c, col)
     if c["group"] == "swap":
         return _run_swap(c, col)
     if c["group"] == "orch":
@@ -687,6 +694,10 @@ def _real_pi(G, nal, F, T, Lmap):
 def replay(v):
     import math
 
+    if v["config"].get("group") == "class-wiring":
+        from checks import wiring
+
+        return wiring.replay_real(v, wiring.run_class)
     c = v["config"]
     m = v.get("model") or {}
     if c["group"] in ("swap", "orch"):
